@@ -72,6 +72,7 @@ def run(props, tier, seed):
     cwd = os.getcwd()
     try:
         os.chdir(top)
+        case_done = set()
         for name, df in tables(rnd):
             for fmt in ('csv', 'parquet'):
                 path = os.path.join(top, '%s.%s' % (name, fmt))
@@ -144,6 +145,26 @@ def run(props, tier, seed):
                             okc = ('Constraints passing: %d' % v.passes) in out and ('Constraints failing: %d' % v.failures) in out
                             b.check('C17.verify.same-counts-as-library', okc, w,
                                     'library passes=%d failures=%d; cli output %r' % (v.passes, v.failures, out[-200:]))
+                # ---------------- the same file under an upper-case / mixed-case extension ----------------
+                for variant in ((fmt.upper(), fmt.capitalize()) if fmt not in case_done else ()):
+                    vpath = os.path.join(top, '%s_case.%s' % (name, variant))
+                    shutil.copy(path, vpath)
+                    vout = os.path.join(top, '%s_case_%s.tdda' % (name, variant))
+                    argv = ['discover', vpath, vout]
+                    w = dict(w0, argv=argv)
+                    b.case(('cli-extension-case', name, variant))
+                    code, out, err, exc = run_cli(argv)
+                    b.check('C17.discover.noraise', exc is None and code in (None, 0), w, '%r %r %s' % (code, exc, err[-300:]))
+                    if exc is None and os.path.exists(vout):
+                        with open(vout) as f:
+                            got = fields_of(f.read())
+                        lib = discover_df(load_df(path))
+                        want = json.loads(json.dumps(fields_of(lib.to_dict()), default=str))
+                        b.check('C17.discover.same-constraints-as-library', got == want, w,
+                                'cli (file named %s) %r, library %r' % (os.path.basename(vpath), got, want))
+                    elif exc is None:
+                        b.check('C17.discover.writes-constraints-file', False, w)
+                case_done.add(fmt)
                 # ---------------- standard input as the data ('-') ----------------
                 if fmt == 'csv':
                     with open(path, encoding='utf-8') as fh:
